@@ -37,7 +37,9 @@ def verify_seek_until(run, tier, prefix='C06/seek_until', total=True, data=b'sta
         reader = state['reader']
         f = reader.file
         pos0 = state['pos0']
-        found0 = it.lookup('found', fr)
+        wname = next((k for k, v_ in fr.vars.items() if isinstance(v_, stream.FBytes)), 'found')   # the window variable, whatever its name
+        state['wname'] = wname
+        found0 = it.lookup(wname, fr)
         ok0 = isinstance(found0, stream.FBytes)
         ctx.oblige(prefix + '/loop.inv.establish', z3.And(found0.start + found0.length == reader.pos, found0.length <= L,
                                                           found0.start == pos0) if ok0 else z3.BoolVal(False), kind='invariant')
@@ -50,7 +52,7 @@ def verify_seek_until(run, tier, prefix='C06/seek_until', total=True, data=b'sta
                 ctx.assume(z3.And(ln == L, s <= pstar))
                 ctx.assume(z3.ForAll([Q], z3.Implies(z3.And(Q >= pos0, Q < s), z3.Not(occurs_at(f, Q, data)))))
             reader._write('pos', ph)
-            fr.set('found', stream.FBytes(f, s, ln))
+            fr.set(state['wname'], stream.FBytes(f, s, ln))
             reads0 = reader.reads
             if not it.decide(it.eval(stmt.test, fr)):
                 # loop exit: found == data
@@ -61,7 +63,7 @@ def verify_seek_until(run, tier, prefix='C06/seek_until', total=True, data=b'sta
                 it.exec_block(stmt.body, fr)
             except (BreakSig, ContinueSig):
                 raise Unsupported('break/continue in seek_until')
-            nf = it.lookup('found', fr)
+            nf = it.lookup(state['wname'], fr)
             okf = isinstance(nf, stream.FBytes)
             ctx.oblige(prefix + '/loop.inv.preserve.window-is-the-last-bytes-read',
                        z3.And(nf.start + nf.length == reader.pos, nf.length <= L, nf.start >= pos0) if okf else z3.BoolVal(False), kind='invariant')
